@@ -164,6 +164,9 @@ def generate(rs: int, tier: str, index: int) -> dict:
                         c[key] = c[key][:3]
             names_mode = ch.below(3)
             step = dict(c, id=0, k="monomial", names=(None if names_mode else model.gen_names(ch.sub("n"), c["dimensions"], c["dimensions"])))
+            if names_mode and ch.sub("varname").chance(0.3):
+                step["varname"] = ch.sub("varname").choice(["x", "z"])
+                step.pop("abort_first", None)
         else:
             d = ch.between(1, 3)
             n = ch.between(1, 30)
@@ -390,6 +393,19 @@ class Runner:
                 if step.get("names"):
                     kw["dimensions"] = tuple(step["names"])
                 func = lambda: numpoly.monomial(graded=graded, reverse=reverse, **kw)
+                if step.get("varname") and not step.get("names"):
+                    # history: the same expansion was asked for under the shipped default name first; now another
+                    # default name is in force (through the public options) and the indeterminates carry it
+                    try:
+                        func()
+                    except Exception:  # noqa: BLE001
+                        pass
+                    plain = func
+                    vn = step["varname"]
+
+                    def func():  # noqa: F811
+                        with numpoly.global_options(default_varname=vn, varname_filter=vn + r"\d+"):
+                            return plain()
         if step.get("mutate_first") and kind != "monomial":
             # history: an earlier caller got the same result and edited it in place
             try:
@@ -496,6 +512,11 @@ class Runner:
     def _monomial_exponents(self, step: dict, poly: Any, where: dict) -> Optional[list]:
         """monomial(...)[i] must be the single monomial with the i-th exponent."""
         names, elems = model.elements(poly)
+        if step.get("varname") and not step.get("names"):
+            prefix = step["varname"]
+            if not all(str(nm) == f"{prefix}{i}" for i, nm in enumerate(names)):
+                self.violate("monomial-names", "monomial", step["id"], f"names {names} while default_varname is {prefix!r}", where)
+                return None
         if step.get("names") and list(names) != list(step["names"]):
             self.violate("monomial-names", "monomial", step["id"], f"names {names} != requested {step['names']}", where)
             return None
@@ -585,7 +606,7 @@ def simplify(plan: dict):
                             nk[r][j] = v - 1
                             yield dict(plan, steps=[dict(step, keys=nk)])
         elif step["k"] in ("glexindex", "bindex", "monomial"):
-            for key in ("bound_dtype", "errstate", "mutate_first", "abort_first", "alloc_fault", "key_dtype", "np_scalars"):
+            for key in ("bound_dtype", "errstate", "mutate_first", "abort_first", "alloc_fault", "key_dtype", "np_scalars", "varname"):
                 if step.get(key):
                     yield dict(plan, steps=[{k: v for k, v in step.items() if k != key}])
             if step["dimensions"] > 1 and not isinstance(step["stop"], list) and not isinstance(step["start"], list):
